@@ -238,9 +238,16 @@ func (i *Interp) boolArg(v value, what string) *smt.Term {
 
 // settle runs all other goroutines until none can make progress.
 func (i *Interp) settle() {
+	me := i.cur
+	was := me.settling
+	i.settleSeq++
+	me.settling = i.settleSeq
+	defer func() { me.settling = was }()
 	for n := 0; n < 10000; n++ {
-		me := i.cur
+		// quiescent = nobody but goroutines that themselves wait in Settle could run
+		i.quiescenceTest = true
 		next := i.pickNext(me, true)
+		i.quiescenceTest = false
 		if next == nil {
 			return
 		}
